@@ -10,10 +10,12 @@ package comet
 import (
 	"bufio"
 	"bytes"
+	"compress/gzip"
 	"fmt"
 	"io"
 	"sort"
 	"strings"
+	"testing/iotest"
 
 	vos "github.com/wizenheimer/comet/internal/vrt/vos"
 )
@@ -882,6 +884,45 @@ func (s *vSerSys) roundTrip(h []string) {
 		s.c.Violation("reload-changed-answers", "", cfgS, h, d)
 	} else {
 		s.vBackToBack(cfgS, h, buf.Bytes(), loaded)
+	}
+	// readers that deliver their last bytes TOGETHER with io.EOF (compress/gzip - what the
+	// store's segment files are read through -, iotest.DataErrReader, HTTP bodies): the
+	// stream is complete and must load
+	if !s.untrained || s.k.train == nil {
+		var zbuf bytes.Buffer
+		if vHash(strings.Join(h, ";"))%4 == 0 {
+			zw := gzip.NewWriter(&zbuf)
+			zw.Write(buf.Bytes())
+			zw.Close()
+		}
+		readers := map[string]func() io.Reader{
+			"iotest.DataErrReader": func() io.Reader { return iotest.DataErrReader(bytes.NewReader(buf.Bytes())) },
+		}
+		if vHash(strings.Join(h, ";"))%4 == 0 {
+			// (every fourth state: the two readers behave alike at the end of the stream)
+			readers["gzip.Reader"] = func() io.Reader {
+				zr, _ := gzip.NewReader(bytes.NewReader(zbuf.Bytes()))
+				return zr
+			}
+		}
+		for name, mk := range readers {
+			r := s.k.fresh()
+			var rerr error
+			func() {
+				defer func() {
+					if p := recover(); p != nil {
+						rerr = fmt.Errorf("panic: %v", p)
+					}
+				}()
+				_, rerr = s.k.read(r, mk())
+			}()
+			s.c.Evaluations++
+			if rerr != nil {
+				s.c.Violation("read-error", "reader-that-returns-data-with-EOF:"+name, cfgS, h, rerr.Error())
+			} else if d := vObsDiff(after, s.k.observe(r)); d != "" {
+				s.c.Violation("reload-changed-answers", "reader-that-returns-data-with-EOF:"+name, cfgS, h, d)
+			}
+		}
 	}
 	// the receiver need not be fresh: an index that holds other documents and has already
 	// answered every observation query (whatever it remembers of them) reads the stream
